@@ -23,8 +23,13 @@ func (interp *Interpreter) SingleStepInvoke(pc ProgramCounter) (ExitReason, Prog
 
 // (v.0.7.1 A.6, A.7) SingleStepStateTransition
 func (interp *Interpreter) SingleStepStateTransition(pc ProgramCounter) (ExitReason, ProgramCounter) {
-	// check program-counter exceed blob length
+	// beyond the blob the code is implicitly zero-extended: the instruction there is trap (opcode 0),
+	// which is charged like any other instruction
 	if int(pc) >= len(interp.Program.InstructionData) {
+		if interp.Gas < 1 {
+			return ExitOOG, pc
+		}
+		interp.Gas -= 1
 		return ExitPanic, pc
 	}
 
@@ -78,6 +83,12 @@ func (interp *Interpreter) SingleStepInvokeDecodedBlocks(pc ProgramCounter) (Exi
 
 	for {
 		if int(pc) >= n {
+			// beyond the blob the code is implicitly zero-extended: the instruction there is trap
+			// (opcode 0), which is charged like any other instruction
+			if interp.Gas < 1 {
+				return ExitOOG, pc
+			}
+			interp.Gas -= 1
 			return ExitPanic, 0
 		}
 
